@@ -235,8 +235,11 @@ def derivative_check(r, key, knots, typ, xf, yf, xd, yd):
             cands.append(j + 1)
         ok, msgs, usable, all_usable = False, [], False, True
         for p in cands:
-            lo = -math.inf if p == 0 else knots[p] - 1e-9 * hk
-            hi = math.inf if p == nk - 2 else knots[p + 1] + 1e-9 * hk
+            # a table row that nominally sits on a break point may have been evaluated on either side (accumulated abscissa):
+            # harmless for C1 splines (second order), a first-order error at the kinks of a linear spline -> interior rows only
+            pad = -1e-9 * hk if typ == "linear" else 1e-9 * hk
+            lo = -math.inf if p == 0 else knots[p] - pad
+            hi = math.inf if p == nk - 2 else knots[p + 1] + pad
             idx = np.nonzero((xf >= lo) & (xf <= hi))[0]
             # nodes: spread over the piece but not farther than 2 piece lengths from x (end pieces are unbounded)
             span = 2 * (knots[p + 1] - knots[p])
@@ -361,6 +364,11 @@ def run_interp(case, ctx, d):
         if abs(yo[i] - y[j]) > tol:
             return r.fail(key_of("csg_resample/value-on-input-grid"), f"{typ}/{bnd}: output at x={gx[i]:.10g} is {yo[i]:.12g}, input value {y[j]:.12g} (tol {tol:.3g})")
         exp = {flags[j]}
+        if j == 0 and acc[i] < x[0]:
+            # tie: the accumulated grid point is a few ulp left of the first input point; csg_resample then treats it as
+            # "before the data" (flag o) - its 1e-12 window is only applied to the later points.  Rule 2: either outcome.
+            exp.add("o")
+            r.cls("ambiguous-flag")
         if acc[i] - x[j] > 2e-13 and j + 1 < n:  # accumulated grid point lands right of the input point by about the code's 1e-12 window
             exp.add(flags[j + 1])
             r.cls("ambiguous-flag")
